@@ -2,7 +2,7 @@
    Earley half, stated over the specification chart of Earley/Spec.v (which the executable
    model of lark/parsers/earley.py is proved/tied to in C01).  Property theorems only. *)
 From Coq Require Import List Arith Bool.
-From LV Require Import Cfg.Grammar Earley.Spec Earley.Prefix.
+From LV Require Import Cfg.Grammar Earley.Spec Earley.Prefix Earley.Alg Earley.Expected.
 Import ListNotations.
 
 (* Valid-prefix property: whenever the chart holds an item at position k, the k tokens
@@ -39,6 +39,14 @@ Theorem C08_first_offending_token (G : grammar) (tok : Type) (tmatch : nat -> to
    viable G tok tmatch start (firstn (S k) w)).
 Proof. exact (first_offending_token G tok tmatch start w k x). Qed.
 Print Assumptions C08_first_offending_token.
+
+(* The executable model of lark's Earley parser (Earley/Alg.v, compared with the code column by
+   column in C01 and on the expected sets here) reports exactly that set. *)
+Theorem C08_model_expected_exact G start toks k t :
+  k < length (r_cols (earley_parse G start toks)) ->
+  (In t (expected_at (earley_parse G start toks) k) <-> expects G nat Nat.eqb start toks k t).
+Proof. exact (expected_at_exact G start toks k t). Qed.
+Print Assumptions C08_model_expected_exact.
 
 (* Non-vacuity: S -> a S b | c ; after "a" the terminals a and c are expected. *)
 Definition exG : grammar := [mkRule 0 [T 0; NT 0; T 1]; mkRule 0 [T 2]].
